@@ -48,6 +48,7 @@ the name in brackets is the class `tools/oracle_c13.py` files the observation un
 import Hfsm.Proofs.QueryPending
 import Hfsm.Proofs.QueryResume
 import Hfsm.Proofs.UtilityExact
+import Hfsm.Proofs.Reach
 
 namespace Hfsm.Props.C13
 open Hfsm
@@ -427,5 +428,82 @@ Theorems that constitute property C13 (for `Props/INDEX.json`):
       full_statement_false               negation of the full statement
   isPath bridges: isResumable_path, isPendingEnter_path, isPendingExit_path, isPendingChange_path, isActive_path
 -/
+
+end Hfsm.Props.C13
+
+/-! ## end-to-end (composition with C01)
+
+Section (a) addresses states by PATH and assumes the id ↔ path correspondence (`pathTo`), `Act` and — for the
+`resume` theorems — `NoMarks`.  For REACHABLE instances (`ReachableOf shape cfg m`, Proofs/Reach.lean:
+`Mach.create shape cfg` followed by any history of API calls) without contract violation, C01's invariant gives
+the pre-order numbering (`IdsFrom 0`, hence `pathTo c.id = some p` for the state `c` at path `p`) and `Act` of an
+activated instance; `NoMarks` holds on `QuietOf` histories (not after `load / replayTransitions` / a
+`replayEnter` that answered `false`: GAP 2 of Proofs/Reach.lean). -/
+namespace Hfsm.Props.C13
+open Hfsm
+variable {U : Type} [UtilArith U] {shape : Shape} {cfg : Config} {m : Mach U}
+
+/-- **Consistency of the queries in every reachable state**, at the level of state ids: for the composite
+region `id` found at any path `pR` of the registry and its `i`-th sub-state `c`,
+`activeSubState(id) = i ⇔ isActive(c.id)` and `isResumable(c.id) ⇔` the region's resumable mark is `i` — activated
+or not, marks or not. -/
+theorem queries_consistent_reachable (h : ReachableOf shape cfg m) (he : m.w.err = none)
+    (pR : List Nat) (i : Nat) (id rid inj : Nat) (hd : Bool) (st : Strategy) (a r q : Option Nat) (mk : Bool)
+    (s : Subs) (c : Node)
+    (hR : m.root.follow pR = some (.compo id rid inj hd st a r q mk s)) (hc : s.get? i = some c) :
+    (m.root.activeSubState id = some i ↔ m.root.isActive c.id = true) ∧
+    (m.root.isResumable c.id = true ↔ r = some i) ∧
+    m.root.isPendingEnter c.id = (a != some i && q == some i) ∧
+    m.root.isPendingExit c.id = (a == some i && q != some i) ∧
+    m.root.isPendingChange c.id = (q != a) := by
+  have hI := h.idsFrom he
+  have hfc : m.root.follow (pR ++ [i]) = some c := by
+    rw [Node.follow_append pR m.root _ i hR]; simpa [Node.subs] using hc
+  have hs : m.root.pathTo c.id = some (pR ++ [i]) := Node.pathTo_of_follow _ m.root 0 c hI hfc
+  have hlen : 0 < s.len := by
+    cases s with
+    | nil => simp [Subs.get?] at hc
+    | cons _ _ _ => simp [Subs.len]
+  have hact : m.root.activeSubState id = a := Node.activeSubState_compo hI hR hlen
+  obtain ⟨h1, h2, h3, h4, h5⟩ := sub_queries m.root pR i id rid inj hd st a r q mk s c m.root.machineActive hR hc
+  rw [hact, isActive_path hs, isResumable_path hs, isPendingEnter_path hs, isPendingExit_path hs,
+    isPendingChange_path hs, h1, h2, h3, h4, h5]
+  simp
+
+/-- **The outcome of a commit pass** over the registry of an activated reachable instance (whatever marks a
+processing step has laid on it — `commit_outcome` needs `Act` only): for every valid path,
+`isActive` afterwards = (`isActive` before ∧ ¬ `willExit`) ∨ `willEnter`. -/
+theorem commit_outcome_reachable (h : ReachableOf shape cfg m) (he : m.w.err = none)
+    (hm : m.root.machineActive = true) (p : List Nat) (w : World U) (hv : m.root.Valid p) :
+    (m.root.commit w).1.actP p true = ((m.root.actP p true && !m.root.willExit p) || m.root.willEnter p) :=
+  commit_outcome m.root p w (h.act he hm) hv
+
+/-- **Resume activates the sub-state reported resumable**, from any activated QUIET reachable instance: the
+hypotheses `NoMarks` and `Act` of the partial theorem are discharged; `hfork` (the region has a composite
+ancestor) is what makes the statement true at all (`witness_resume_ignored`). -/
+theorem resume_activates_resumable_reachable (hq : QuietOf shape cfg m) (he : m.w.err = none)
+    (hm : m.root.machineActive = true) (pR : List Nat) (x : Nat)
+    (id rid inj : Nat) (hd : Bool) (st : Strategy) (a r q : Option Nat) (mk : Bool) (s : Subs) (c : Node)
+    (rq : Req) (hk : rq.kind = .resume) (w w' : World U)
+    (hR : m.root.follow pR = some (.compo id rid inj hd st a r q mk s)) (hc : s.get? x = some c)
+    (hres : m.root.isResumable c.id = true)
+    (hfork : (m.root.lastCompo pR none).isSome = true) :
+    (((m.root.mark pR).1.fwdActive rq w).1.commit w').1.actP (pR ++ [x]) true = true := by
+  have hfc : m.root.follow (pR ++ [x]) = some c := by
+    rw [Node.follow_append pR m.root _ x hR]; simpa [Node.subs] using hc
+  have hs : m.root.pathTo c.id = some (pR ++ [x]) :=
+    Node.pathTo_of_follow _ m.root 0 c (hq.reachable.idsFrom he) hfc
+  rw [isResumable_path hs] at hres
+  exact resume_activates_resumable_partial m.root pR x id rid inj hd st a r q mk s c rq hk w w'
+    (hq.noMarks he) (hq.reachable.act he hm) hR hc hres hfork
+
+/-- a concrete non-trivial reachable instance exists; it is quiet and activated, its root region is found at
+path `[]` with two sub-states, and the queries about sub-state 0 (state 1) answer as the theorem says -/
+example : Reachable (Api.run Demo.mach Demo.prog) := Demo.reachable.reachable
+example : ∃ m : Mach Demo.DU, QuietOf Demo.shape Demo.cfg m ∧ m.w.err = none ∧ m.root.machineActive = true ∧
+    m.root.Valid [0] ∧ m.root.activeSubState 0 = some 0 ∧ m.root.isActive 1 = true :=
+  ⟨_, Demo.quiet, Demo.err_none, Demo.active,
+    (by decide +kernel : ((Api.run Demo.mach Demo.prog).root.follow [0]).isSome = true),
+    by decide +kernel, by decide +kernel⟩
 
 end Hfsm.Props.C13
